@@ -74,9 +74,26 @@ struct ExactBuf {
   ~ExactBuf() { std::free(p); }
 };
 
+// state of the existing document before ParseSchema: 0 as parsed; 1 a lookup map on every object (also the
+// empty ones); 2 every object has gone through AddMember + CreateMap + RemoveMember (grown block, map that has
+// seen an insertion and a removal; an empty object keeps its block and its map)
+template <class N, class A>
+static void prepare_existing(N& n, A& al, int emode) {
+  if (n.IsObject()) {
+    for (auto it = n.MemberBegin(); it != n.MemberEnd(); ++it) prepare_existing(it->value, al, emode);
+    if (emode == 2) n.AddMember("zz~", N(1), al);
+    n.CreateMap(al);
+    if (emode == 2) n.RemoveMember("zz~");
+  } else if (n.IsArray()) {
+    for (auto it = n.Begin(); it != n.End(); ++it) prepare_existing(*it, al, emode);
+  }
+}
+
 template <class Doc>
 static void apply(const std::string& e, const std::vector<const std::string*>& ts, const ref::Value& E, const std::vector<const ref::Value*>& Ts,
-                  const char* tag, vr::Ctx& ctx) {
+                  const char* tag0, vr::Ctx& ctx, int emode = 0) {
+  std::string tagbuf = std::string(tag0) + (emode == 1 ? "+maps" : emode == 2 ? "+maps-after-add-remove" : "");
+  const char* tag = tagbuf.c_str();
   std::string desc = "E=" + e;
   for (auto t : ts) desc += "  T=" + *t;
   ExactBuf eb(e);
@@ -85,6 +102,10 @@ static void apply(const std::string& e, const std::vector<const std::string*>& t
   if (doc.HasParseError()) {
     ctx.violation("rejects_valid", "rejects_valid", desc, "Parse(E) failed code %d", (int)doc.GetParseError());
     return;
+  }
+  if (emode) {
+    prepare_existing(static_cast<typename Doc::NodeType&>(doc), doc.GetAllocator(), emode);
+    desc += emode == 1 ? "  [lookup maps on every object of E]" : "  [every object of E: AddMember, CreateMap, RemoveMember]";
   }
   ref::Value cur = E;
   for (size_t i = 0; i < ts.size(); i++) {
@@ -105,6 +126,14 @@ static void apply(const std::string& e, const std::vector<const std::string*>& t
       return;
     }
     cur = merge(cur, *Ts[i]);
+    {
+      // every accessor, in particular the keyed lookups, must see the new value
+      std::string acc = sc::compare(doc, cur);
+      if (!acc.empty()) {
+        ctx.violation("schema_accessor", std::string("schema_accessor_mismatch"), desc, "[%s] step %zu: iteration shows the expected value but %s", tag, i, acc.c_str());
+        return;
+      }
+    }
     // the document must still be fully usable: serialise, reparse, compare
     std::string dump = doc.Dump();
     ref::Result rp = ref::parse(dump);
@@ -205,10 +234,17 @@ int main(int argc, char** argv) {
 
   vr::Family f1, f2, f3, f4;
   f4.name = "SD_pairs_shape_depth2";
-  f4.count = (uint64_t)WD.size() * WD.size();
+  f4.count = (uint64_t)WD.size() * WD.size() * 3;
   f4.group = "SD";
   f4.chunk = 512;
-  f4.rule = "all pairs (E,T) over the " + std::to_string(WD.size()) + " duplicate-free values with <= 2 children per container and nesting depth <= 2 (leaves 1 and the empty object; thorough adds \"s\" and the empty array; keys a,b in both orders): reaches two-member objects nested in two-member objects on both sides";
+  f4.rule = "all pairs (E,T) over the " + std::to_string(WD.size()) + " duplicate-free values with <= 2 children per container and nesting depth <= 2 (leaves 1 and the empty object; thorough adds \"s\" and the empty array; keys a,b in both orders): reaches two-member objects nested in two-member objects on both sides; x 3 states of the existing document (as parsed / lookup maps on every object incl. empty ones / every object after AddMember+CreateMap+RemoveMember)";
+  const size_t mr = std::min<size_t>(WD.size(), quick ? 36 : 60);
+  vr::Family f5;
+  f5.name = "SR_shape_repeated";
+  f5.count = (uint64_t)mr * mr * mr * 3;
+  f5.group = "SR";
+  f5.chunk = 512;
+  f5.rule = "repeated application over the first " + std::to_string(mr) + " shape-bounded values: all (E,T1,T2) x the 3 states of the existing document";
   f1.name = "SP_pairs";
   f1.count = (uint64_t)WE.size() * WT.size();
   f1.group = "SP";
@@ -230,16 +266,30 @@ int main(int argc, char** argv) {
     std::vector<const std::string*> ts;
     std::vector<const ref::Value*> Ts;
     size_t ei;
+    int emode = 0;
     if (f.name[1] == 'P') {
       ei = idx / WT.size();
       size_t ti = idx % WT.size();
       ts = {&WT[ti]};
       Ts = {&VT[ti]};
     } else if (f.name[1] == 'D') {
+      emode = (int)(idx % 3);
+      idx /= 3;
       ei = idx / WD.size();
       size_t ti = idx % WD.size();
+      if (HAVE_ASAN && emode != 0 && (ei >= 300 || ti >= 300)) {  // the ASan passes keep the map states to the 300 smallest shapes
+        ctx.skip();
+        return;
+      }
       ts = {&WD[ti]};
       Ts = {&VD[ti]};
+    } else if (f.name[1] == 'R') {
+      emode = (int)(idx % 3);
+      idx /= 3;
+      ei = idx / (mr * mr);
+      size_t t1 = (idx / mr) % mr, t2 = idx % mr;
+      ts = {&WD[t1], &WD[t2]};
+      Ts = {&VD[t1], &VD[t2]};
     } else if (f.name[1] == 'S') {
       ei = idx / WTs.size();
       size_t ti = idx % WTs.size();
@@ -251,7 +301,7 @@ int main(int argc, char** argv) {
       ts = {&WT[t1], &WT[t2]};
       Ts = {&VT[t1], &VT[t2]};
     }
-    const bool shape = f.name[1] == 'D';
+    const bool shape = f.name[1] == 'D' || f.name[1] == 'R';
     const ref::Value& E = shape ? VD[ei] : VE[ei];
     const std::string& Etext = shape ? WD[ei] : WE[ei];
     ctx.eval();
@@ -265,13 +315,13 @@ int main(int argc, char** argv) {
       for (auto t : ts) d += " T=" + *t;
       ctx.sample(d);
     }
-    apply<PoolDoc>(Etext, ts, E, Ts, "pool", ctx);
+    apply<PoolDoc>(Etext, ts, E, Ts, "pool", ctx, emode);
 #if HAVE_ASAN
-    apply<SimpleDoc>(Etext, ts, E, Ts, "simple", ctx);
+    apply<SimpleDoc>(Etext, ts, E, Ts, "simple", ctx, emode);
 #endif
   };
 
-  std::vector<vr::Family> fams = {f1, f2, f3, f4};
+  std::vector<vr::Family> fams = {f1, f2, f3, f4, f5};
   if (args.replay) return R.replay_one(fams, check);
   const std::string only = args.get("only");
   for (auto& f : fams)
